@@ -124,7 +124,7 @@ S sin_7(const S & x2)
  * exponential Jacobian, and A'(x) / x, written in terms of the Taylor tails so that neither
  * suffers from cancellation for small x.
  *
- * With s3 = sin_3, c2 = cos_2, c4 = cos_4, s5 = sin_5:
+ * For x^2 < 1, with s3 = sin_3, c2 = cos_2, c4 = cos_4, s5 = sin_5:
  *   A = P / (2 S),  P = 2 s3 - c2,  S = sin(x) / x = 1 + x^2 s3,
  *   P'/x = s3 + 4 c4 - 6 s5,  S'/x = 2 s3 + x^2 (c4 - 3 s5).
  *
@@ -133,12 +133,25 @@ S sin_7(const S & x2)
 template<typename S>
 std::array<S, 2> dexpinv_coefs(const S & x2)
 {
-  const S s3 = sin_3(x2), c2 = cos_2(x2), c4 = cos_4(x2), s5 = sin_5(x2);
-  const S P     = S(2) * s3 - c2;
-  const S Sx    = S(1) + x2 * s3;
-  const S dP_x  = s3 + S(4) * c4 - S(6) * s5;
-  const S dSx_x = S(2) * s3 + x2 * (c4 - S(3) * s5);
-  return {P / (S(2) * Sx), (dP_x * Sx - P * dSx_x) / (S(2) * Sx * Sx)};
+  if (x2 < S(1)) {
+    const S s3 = sin_3(x2), c2 = cos_2(x2), c4 = cos_4(x2), s5 = sin_5(x2);
+    const S P     = S(2) * s3 - c2;
+    const S Sx    = S(1) + x2 * s3;
+    const S dP_x  = s3 + S(4) * c4 - S(6) * s5;
+    const S dSx_x = S(2) * s3 + x2 * (c4 - S(3) * s5);
+    return {P / (S(2) * Sx), (dP_x * Sx - P * dSx_x) / (S(2) * Sx * Sx)};
+  } else {
+    // away from zero the half-angle closed forms are accurate (also next to x = pi, where the tail
+    // form above would be 0 / 0):  A = 1/x^2 - cot(x/2) / (2 x)
+    using std::sqrt, std::sin, std::cos;
+    const S x   = sqrt(x2);
+    const S sh  = sin(x / S(2));
+    const S cot = cos(x / S(2)) / sh;
+    return {
+      S(1) / x2 - cot / (S(2) * x),
+      -S(2) / (x2 * x2) + cot / (S(2) * x2 * x) + S(1) / (S(4) * x2 * sh * sh),
+    };
+  }
 }
 
 }  // namespace detail
